@@ -25,6 +25,8 @@ BOUNDS = {
 OUTSIDE = ("non-finite matrices instead of exceptions (scipy's own reaction to non-finite residuals is not modelled); "
            "faults inside create_result itself; real scipy evaluation schedules beyond K points")
 
+FLOAT_SELFCHECK = True
+
 
 def preload():
     c02.preload()
